@@ -4,11 +4,12 @@ import (
 	"bytes"
 	"context"
 	"crypto/ed25519"
-	"encoding/gob"
 	"fmt"
 	"io"
 	"math"
+	"reflect"
 	"strings"
+	"unicode/utf8"
 
 	"github.com/libp2p/go-libp2p/core/crypto"
 	"google.golang.org/protobuf/encoding/protowire"
@@ -57,36 +58,141 @@ func showSigner(s *types.Signer) string {
 
 func headerArgs(h *types.Header) string { return showHeader(h) }
 
+// ---- nil vs empty: an op says which EMPTY slices of the Go value are non-nil (`ne=<field names>`; every other
+// empty slice is nil) and which (empty) transactions are nil (`nt=<indices>`; every other empty transaction is
+// `Tx{}`); `ne=txs` makes an empty transaction list `Txs{}` instead of nil. Lean: Drv.C12.goField / goTxs.
+
+func neSet(o hx.Op) map[string]bool {
+	m := map[string]bool{}
+	for _, k := range strings.Split(o.Str("ne"), ",") {
+		if k != "" && k != "-" {
+			m[k] = true
+		}
+	}
+	return m
+}
+
+// gb: the bytes of field k with the nil-ness the op asks for
+func gb(o hx.Op, k string) []byte {
+	b := o.Bytes(k)
+	if len(b) == 0 {
+		if neSet(o)[k] {
+			return []byte{}
+		}
+		return nil
+	}
+	return b
+}
+
+// neOf lists the fields of a value that are empty but not nil (the `ne=` argument of its op)
+func neOf(fields map[string][]byte, extra ...string) string {
+	var out []string
+	for k, b := range fields {
+		if b != nil && len(b) == 0 {
+			out = append(out, k)
+		}
+	}
+	out = append(out, extra...)
+	if len(out) == 0 {
+		return ""
+	}
+	sortStrings(out)
+	return " ne=" + strings.Join(out, ",")
+}
+func sortStrings(a []string) {
+	for i := 1; i < len(a); i++ {
+		for j := i; j > 0 && a[j] < a[j-1]; j-- {
+			a[j], a[j-1] = a[j-1], a[j]
+		}
+	}
+}
+func headerSlices(h *types.Header) map[string][]byte {
+	return map[string][]byte{"lhh": h.LastHeaderHash, "lch": h.LastCommitHash, "dh": h.DataHash, "ch": h.ConsensusHash,
+		"ah": h.AppHash, "lrh": h.LastResultsHash, "pa": h.ProposerAddress, "vh": h.ValidatorHash}
+}
+func dataSlices(d *types.Data) (map[string][]byte, []string, string) {
+	m := map[string][]byte{}
+	if d.Metadata != nil {
+		m["mldh"] = d.Metadata.LastDataHash
+	}
+	var extra []string
+	if d.Txs != nil && len(d.Txs) == 0 {
+		extra = append(extra, "txs")
+	}
+	var nt []string
+	for i, t := range d.Txs {
+		if t == nil {
+			nt = append(nt, fmt.Sprint(i))
+		}
+	}
+	nts := ""
+	if len(nt) > 0 {
+		nts = " nt=" + strings.Join(nt, ",")
+	}
+	return m, extra, nts
+}
+func merge(a map[string][]byte, b map[string][]byte) map[string][]byte {
+	for k, v := range b {
+		a[k] = v
+	}
+	return a
+}
+func b01(b bool) string {
+	if b {
+		return "1"
+	}
+	return "0"
+}
+
 func headerOfOp(o hx.Op) types.Header {
 	return types.Header{
 		Version:         types.Version{Block: u(o, "vb"), App: u(o, "va")},
 		BaseHeader:      types.BaseHeader{Height: u(o, "h"), Time: u(o, "t"), ChainID: string(o.Bytes("cid"))},
-		LastHeaderHash:  o.Bytes("lhh"),
-		LastCommitHash:  o.Bytes("lch"),
-		DataHash:        o.Bytes("dh"),
-		ConsensusHash:   o.Bytes("ch"),
-		AppHash:         o.Bytes("ah"),
-		LastResultsHash: o.Bytes("lrh"),
-		ProposerAddress: o.Bytes("pa"),
-		ValidatorHash:   o.Bytes("vh"),
+		LastHeaderHash:  gb(o, "lhh"),
+		LastCommitHash:  gb(o, "lch"),
+		DataHash:        gb(o, "dh"),
+		ConsensusHash:   gb(o, "ch"),
+		AppHash:         gb(o, "ah"),
+		LastResultsHash: gb(o, "lrh"),
+		ProposerAddress: gb(o, "pa"),
+		ValidatorHash:   gb(o, "vh"),
 	}
 }
 func u(o hx.Op, k string) uint64 { n, _ := o.U64(k); return n }
 func metaOfOp(o hx.Op) *types.Metadata {
-	return &types.Metadata{ChainID: string(o.Bytes("mcid")), Height: u(o, "mh"), Time: u(o, "mt"), LastDataHash: o.Bytes("mldh")}
+	return &types.Metadata{ChainID: string(o.Bytes("mcid")), Height: u(o, "mh"), Time: u(o, "mt"), LastDataHash: gb(o, "mldh")}
 }
 func dataOfOp(o hx.Op) types.Data {
 	d := types.Data{}
 	if o.Bool("meta") {
 		d.Metadata = metaOfOp(o)
 	}
-	for _, t := range o.List("txs") {
+	nt := map[int]bool{}
+	for _, k := range strings.Split(o.Str("nt"), ",") {
+		var i int
+		if _, err := fmt.Sscanf(k, "%d", &i); err == nil {
+			nt[i] = true
+		}
+	}
+	l := o.List("txs")
+	if len(l) == 0 && neSet(o)["txs"] {
+		d.Txs = types.Txs{}
+	}
+	for i, t := range l {
+		if len(t) == 0 {
+			if nt[i] {
+				d.Txs = append(d.Txs, nil)
+			} else {
+				d.Txs = append(d.Txs, types.Tx{})
+			}
+			continue
+		}
 		d.Txs = append(d.Txs, types.Tx(t))
 	}
 	return d
 }
 func signerOfOp(o hx.Op) types.Signer {
-	s := types.Signer{Address: o.Bytes("sa")}
+	s := types.Signer{Address: gb(o, "sa")}
 	if pk := o.Bytes("pk"); len(pk) > 0 {
 		k, err := crypto.UnmarshalPublicKey(pk)
 		if err == nil {
@@ -133,8 +239,16 @@ func keyOK(b []byte) bool {
 
 // ---- generator ----
 
+// rbytes: a byte string of one of the given lengths; a zero-length one is nil three times out of four and an
+// empty non-nil slice otherwise (the two are different Go values with the same encoding)
 func rbytes(r *hx.Rng, choices ...int) []byte {
 	n := choices[r.Intn(len(choices))]
+	if n == 0 {
+		if r.Intn(4) == 0 {
+			return []byte{}
+		}
+		return nil
+	}
 	return r.Bytes(n)
 }
 func ru64(r *hx.Rng) uint64 {
@@ -151,12 +265,17 @@ func ru64(r *hx.Rng) uint64 {
 		return r.U64()
 	}
 }
+// badChains: Go strings that are not UTF-8 (a Go string may hold any bytes; protobuf-go refuses them on marshal)
+var badChains = []string{"\xff", "chain-\xc3", "\xed\xa0\x80", "a\xf8\x88\x80\x80\x80", "\xc0\xaf"}
+
 func rchain(r *hx.Rng) string {
-	switch r.Intn(5) {
-	case 0:
+	switch r.Intn(12) {
+	case 0, 1:
 		return ""
-	case 1:
+	case 2, 3:
 		return "chain-é-世界"
+	case 4:
+		return badChains[r.Intn(len(badChains))]
 	default:
 		return fmt.Sprintf("chain-%d", r.Intn(1000))
 	}
@@ -192,6 +311,9 @@ func rdata(r *hx.Rng, maxTx int) types.Data {
 	default:
 		n = r.Intn(maxTx + 1)
 	}
+	if n == 0 && r.Bool() {
+		d.Txs = types.Txs{} // empty but not nil
+	}
 	for i := 0; i < n; i++ {
 		d.Txs = append(d.Txs, types.Tx(rbytes(r, 0, 1, 3, 40, 130, 300)))
 	}
@@ -199,6 +321,23 @@ func rdata(r *hx.Rng, maxTx int) types.Data {
 }
 
 func dataArgs(d *types.Data) string { return showData(d) }
+
+// the nil-ness arguments of the ops
+func headerNe(h *types.Header) string { return neOf(headerSlices(h)) }
+func metaNe(m *types.Metadata) string {
+	return neOf(map[string][]byte{"mldh": m.LastDataHash})
+}
+func dataNe(d *types.Data) string {
+	m, extra, nt := dataSlices(d)
+	return neOf(m, extra...) + nt
+}
+func shNe(sh *types.SignedHeader) string {
+	return neOf(merge(headerSlices(&sh.Header), map[string][]byte{"sig": sh.Signature, "sa": sh.Signer.Address}))
+}
+func sdNe(sd *types.SignedData) string {
+	m, extra, nt := dataSlices(&sd.Data)
+	return neOf(merge(m, map[string][]byte{"sig": sd.Signature, "sa": sd.Signer.Address}), extra...) + nt
+}
 
 func mutate(r *hx.Rng, b []byte) []byte {
 	b = append([]byte(nil), b...)
@@ -277,6 +416,13 @@ func genC12(r *hx.Rng, tier string, w io.Writer) {
 	for _, g := range goldenOps() {
 		fmt.Fprintln(w, g)
 	}
+	// the known finding C12/hash/data-hash-ignores-marshal-error, deliberately: a chain id that is not UTF-8
+	{
+		d := types.Data{Metadata: &types.Metadata{ChainID: "\xff", Height: 5, Time: 7, LastDataHash: []byte{9}}, Txs: types.Txs{types.Tx("a")}}
+		fmt.Fprintln(w, "enc-data", dataArgs(&d)+dataNe(&d))
+		h := types.Header{BaseHeader: types.BaseHeader{ChainID: "\xff", Height: 5}}
+		fmt.Fprintln(w, "enc-header", headerArgs(&h)+headerNe(&h))
+	}
 	priv, pub := detKey(7)
 	addr := types.KeyAddress(pub)
 	pk, _ := crypto.MarshalPublicKey(pub)
@@ -289,19 +435,22 @@ func genC12(r *hx.Rng, tier string, w io.Writer) {
 		if i%97 == 0 {
 			d = rdata(r, 400) // many txs
 		}
-		var hb, mb, db, shb, sdb []byte
+		var hb, mb, db, shb, sdb, stb []byte
 		hb, _ = h.MarshalBinary()
-		fmt.Fprintln(w, "enc-header", headerArgs(&h))
+		fmt.Fprintln(w, "enc-header", headerArgs(&h)+headerNe(&h))
 		m := rmeta(r)
 		mb, _ = m.MarshalBinary()
-		fmt.Fprintln(w, "enc-meta", showMeta(m))
+		fmt.Fprintln(w, "enc-meta", showMeta(m)+metaNe(m))
 		db, _ = d.MarshalBinary()
-		fmt.Fprintln(w, "enc-data", dataArgs(&d))
+		fmt.Fprintln(w, "enc-data", dataArgs(&d)+dataNe(&d))
 		// signed header: genuine signature in most cases, signer variants
 		sh := types.SignedHeader{Header: h}
 		variant := r.Intn(5)
 		switch variant {
 		case 0: // no signer, no signature
+			if r.Intn(4) == 0 {
+				sh.Signature = types.Signature{} // empty, not nil
+			}
 		case 1: // address but no key (the code collapses this)
 			sh.Signer = types.Signer{Address: addr}
 			sh.Signature = r.Bytes(64)
@@ -310,9 +459,13 @@ func genC12(r *hx.Rng, tier string, w io.Writer) {
 			sh.Signer = types.Signer{PubKey: pub, Address: addr}
 			pl, _ := sh.Header.MarshalBinary()
 			sh.Signature, _ = priv.Sign(pl)
+			if r.Intn(8) == 0 {
+				sh.Signer.Address = rbytes(r, 0, 0, 3) // a key with an absent / empty / other address
+			}
 		}
 		shb, _ = sh.MarshalBinary()
-		fmt.Fprintf(w, "enc-sh %s sig=%s %s\n", headerArgs(&sh.Header), hx.Hex(sh.Signature), showSigner(&sh.Signer))
+		shLine := fmt.Sprintf("%s sig=%s %s%s", headerArgs(&sh.Header), hx.Hex(sh.Signature), showSigner(&sh.Signer), shNe(&sh))
+		fmt.Fprintln(w, "enc-sh", shLine)
 		sd := types.SignedData{Data: d}
 		if variant >= 2 {
 			sd.Signer = types.Signer{PubKey: pub, Address: addr}
@@ -322,8 +475,27 @@ func genC12(r *hx.Rng, tier string, w io.Writer) {
 			sd.Signer = types.Signer{Address: addr}
 		}
 		sdb, _ = sd.MarshalBinary()
-		fmt.Fprintf(w, "enc-sd %s sig=%s %s\n", dataArgs(&d), hx.Hex(sd.Signature), showSigner(&sd.Signer))
+		sdLine := fmt.Sprintf("%s sig=%s %s%s", dataArgs(&d), hx.Hex(sd.Signature), showSigner(&sd.Signer), sdNe(&sd))
+		fmt.Fprintln(w, "enc-sd", sdLine)
 		_ = pk
+		// state (types.State <-> pb.State, the store's UpdateState / GetState)
+		st, loc := rstate(r)
+		if p, err := st.ToProto(); err == nil {
+			stb, _ = proto.Marshal(p)
+		}
+		fmt.Fprintln(w, "enc-state", stateArgs(&st, loc))
+		// cache files: the REAL pkg/cache SaveToDisk / LoadFromDisk (every 4th value; each save fsyncs four files)
+		if i%4 == 1 {
+			fmt.Fprintf(w, "cache-sh k=%d %s keyok=1\n", sh.Height(), shLine)
+			fmt.Fprintf(w, "cache-data k=%d %s\n", ru64(r), dataArgs(&d)+dataNe(&d))
+		}
+		if i%4 == 3 {
+			genCacheLoad(r, w, &sh, &d)
+		}
+		if i%100 == 7 {
+			fmt.Fprintf(w, "cache-trunc kind=sh k=%d %s keyok=1\n", sh.Height(), shLine)
+			fmt.Fprintf(w, "cache-trunc kind=data k=3 %s\n", dataArgs(&d)+dataNe(&d))
+		}
 		// wire forms the node's own encoder never produces: a signer with an address but no public key
 		if i%4 == 0 {
 			hp := sh.Header.ToProto()
@@ -331,12 +503,14 @@ func genC12(r *hx.Rng, tier string, w io.Writer) {
 			fmt.Fprintf(w, "dec-sh b=%s keyok=0\n", hx.Hex(raw))
 			raw2, _ := proto.Marshal(&pb.SignedData{Data: d.ToProto(), Signature: r.Bytes(64), Signer: &pb.Signer{Address: addr}})
 			fmt.Fprintf(w, "dec-sd b=%s keyok=0\n", hx.Hex(raw2))
+			// timestamps no encoder of the node produces: nanos negative, beyond 10^9, beyond int32; extreme seconds
+			fmt.Fprintf(w, "dec-state b=%s\n", hx.Hex(weirdStateBytes(r)))
 		}
 		// batch-cursor list codec (block/manager.go convertBatchDataToBytes / bytesToBatchData)
 		{
 			var l [][]byte
 			for k := 0; k < r.Intn(4); k++ {
-				l = append(l, rbytes(r, 0, 1, 5, 40))
+				l = append(l, r.Bytes([]int{0, 1, 5, 40}[r.Intn(4)]))
 			}
 			fmt.Fprintf(w, "bd-enc list=%s\n", hx.HexList(l))
 			enc := block.VerifBatchDataToBytes(l)
@@ -360,14 +534,14 @@ func genC12(r *hx.Rng, tier string, w io.Writer) {
 			}
 		}
 		// decoders: valid bytes, mutated bytes, wrong message type
-		srcs := map[string][]byte{"header": hb, "meta": mb, "data": db, "sh": shb, "sd": sdb}
-		for _, dec := range []string{"header", "meta", "data", "sh", "sd"} {
+		srcs := map[string][]byte{"header": hb, "meta": mb, "data": db, "sh": shb, "sd": sdb, "state": stb}
+		ks := []string{"header", "meta", "data", "sh", "sd", "state"}
+		for _, dec := range ks {
 			in := srcs[dec]
 			switch r.Intn(6) {
 			case 0:
 				// unchanged
 			case 1: // wrong message type
-				ks := []string{"header", "meta", "data", "sh", "sd"}
 				in = srcs[ks[r.Intn(len(ks))]]
 			case 2:
 				in = mutate(r, mutate(r, in))
@@ -398,31 +572,29 @@ func genC12(r *hx.Rng, tier string, w io.Writer) {
 	}
 }
 
-// goldenOps: fixed values whose exact bytes and hashes are pinned in /verif/golden/c12.txt
+// goldenOps: the fixed values whose exact bytes and hashes are pinned in /verif/golden/C12.lean (facts.go)
 func goldenOps() []string {
-	_, pub := detKey(9)
-	addr := types.KeyAddress(pub)
-	h := types.Header{
-		Version:        types.Version{Block: 1, App: 2},
-		BaseHeader:     types.BaseHeader{Height: 7, Time: 1700000000000000000, ChainID: "golden-chain"},
-		LastHeaderHash: bytes.Repeat([]byte{0x11}, 32), DataHash: bytes.Repeat([]byte{0x22}, 32),
-		ConsensusHash: make([]byte, 32), AppHash: []byte("app-hash"), ProposerAddress: addr, ValidatorHash: bytes.Repeat([]byte{0x33}, 32),
-	}
-	d := types.Data{Metadata: &types.Metadata{ChainID: "golden-chain", Height: 7, Time: 1700000000000000000, LastDataHash: bytes.Repeat([]byte{0x44}, 32)},
-		Txs: types.Txs{types.Tx("tx-one"), types.Tx(""), types.Tx("tx-three")}}
+	h, d, sh, sd := GoldenValues()
 	e := types.Data{}
 	h0 := types.Header{}
-	sh := types.SignedHeader{Header: h, Signature: bytes.Repeat([]byte{0x55}, 64), Signer: types.Signer{PubKey: pub, Address: addr}}
-	sd := types.SignedData{Data: d, Signature: bytes.Repeat([]byte{0x66}, 64), Signer: types.Signer{PubKey: pub, Address: addr}}
-	return []string{
+	hf := GoldenFullHeader()
+	out := []string{
 		"enc-header " + headerArgs(&h),
 		"enc-header " + headerArgs(&h0),
+		"enc-header " + headerArgs(&hf),
 		"enc-data " + dataArgs(&d),
 		"enc-data " + dataArgs(&e),
 		"enc-meta " + showMeta(d.Metadata),
 		fmt.Sprintf("enc-sh %s sig=%s %s", headerArgs(&sh.Header), hx.Hex(sh.Signature), showSigner(&sh.Signer)),
 		fmt.Sprintf("enc-sd %s sig=%s %s", dataArgs(&sd.Data), hx.Hex(sd.Signature), showSigner(&sd.Signer)),
+		fmt.Sprintf("cache-sh k=7 %s sig=%s %s keyok=1", headerArgs(&sh.Header), hx.Hex(sh.Signature), showSigner(&sh.Signer)),
+		"cache-data k=7 " + dataArgs(&d),
 	}
+	for _, s := range GoldenStates() {
+		s := s
+		out = append(out, "enc-state "+stateArgs(&s, "utc"))
+	}
+	return out
 }
 
 // ---- executor + monitors ----
@@ -437,9 +609,23 @@ func guard(c *hx.Ctx, what string, f func() string) (out string) {
 	return f()
 }
 
+// encErr: MarshalBinary refused a value. The only legitimate reason is a chain id that is not UTF-8 (protobuf-go
+// checks proto3 strings on marshal); anything else is reported.
+func encErr(c *hx.Ctx, what string, chainID string, err error) {
+	if utf8.ValidString(chainID) {
+		c.Report("C12/encode/"+what+"/unexpected-error", err.Error())
+	}
+	c.Hit("enc-refused-not-utf8/" + what)
+}
+
+func deqHit(c *hx.Ctx, what string, eq bool) string {
+	if !eq {
+		c.Hit("deep-equal-differs/" + what)
+	}
+	return b01(eq)
+}
+
 func runC12(c *hx.Ctx) {
-	gob.Register(&types.SignedHeader{})
-	gob.Register(&types.Data{})
 	for {
 		o, ok := c.Next()
 		if !ok {
@@ -454,7 +640,8 @@ func runC12(c *hx.Ctx) {
 			c.Emit("%s", guard(c, "enc-header", func() string {
 				b, err := h.MarshalBinary()
 				if err != nil {
-					return "err"
+					encErr(c, "header", h.ChainID(), err)
+					return "err:marshal hash=" + hx.Hex(h.Hash())
 				}
 				var h2 types.Header
 				if err := h2.UnmarshalBinary(b); err != nil {
@@ -462,52 +649,64 @@ func runC12(c *hx.Ctx) {
 				} else if showHeader(&h2) != showHeader(&h) || !bytes.Equal(h2.Hash(), h.Hash()) {
 					c.Report("C12/roundtrip/header/differs", showHeader(&h)+" -> "+showHeader(&h2))
 				}
-				return fmt.Sprintf("bytes=%s hash=%s", hx.Hex(b), hx.Hex(h.Hash()))
+				return fmt.Sprintf("bytes=%s hash=%s deq=%s", hx.Hex(b), hx.Hex(h.Hash()), deqHit(c, "header", reflect.DeepEqual(h, h2)))
 			}))
 		case "enc-meta":
 			m := metaOfOp(o)
 			c.Emit("%s", guard(c, "enc-meta", func() string {
 				b, err := m.MarshalBinary()
 				if err != nil {
-					return "err"
+					encErr(c, "metadata", m.ChainID, err)
+					return "err:marshal"
 				}
 				var m2 types.Metadata
 				if err := m2.UnmarshalBinary(b); err != nil || showMeta(&m2) != showMeta(m) {
 					c.Report("C12/roundtrip/metadata/differs", showMeta(m))
 				}
-				return "bytes=" + hx.Hex(b)
+				return "bytes=" + hx.Hex(b) + " deq=" + deqHit(c, "metadata", reflect.DeepEqual(*m, m2))
 			}))
 		case "enc-data":
 			d := dataOfOp(o)
 			c.Emit("%s", guard(c, "enc-data", func() string {
 				b, err := d.MarshalBinary()
 				if err != nil {
-					return "err"
+					dataEncErr(c, "data", &d, err)
+					return fmt.Sprintf("err:marshal hash=%s dac=%s", hx.Hex(d.Hash()), hx.Hex(d.DACommitment()))
 				}
-				checkDataRoundTrip(c, &d, b)
-				return fmt.Sprintf("bytes=%s hash=%s dac=%s", hx.Hex(b), hx.Hex(d.Hash()), hx.Hex(d.DACommitment()))
+				eq := checkDataRoundTrip(c, &d, b)
+				return fmt.Sprintf("bytes=%s hash=%s dac=%s deq=%s", hx.Hex(b), hx.Hex(d.Hash()), hx.Hex(d.DACommitment()), deqHit(c, "data", eq))
 			}))
 		case "enc-sh":
-			sh := types.SignedHeader{Header: headerOfOp(o), Signature: o.Bytes("sig"), Signer: signerOfOp(o)}
+			sh := types.SignedHeader{Header: headerOfOp(o), Signature: gb(o, "sig"), Signer: signerOfOp(o)}
 			c.Emit("%s", guard(c, "enc-sh", func() string {
 				b, err := sh.MarshalBinary()
 				if err != nil {
-					return "err"
+					encErr(c, "signedheader", sh.ChainID(), err)
+					// the block store must refuse it as cleanly
+					st := storepkg.New(hx.NewLogDS(nil))
+					sig := sh.Signature
+					if err := st.SaveBlockData(context.Background(), &sh, &types.Data{}, &sig); err == nil {
+						c.Report("C12/encode/signedheader/store-accepted-unencodable", showHeader(&sh.Header))
+					}
+					return "err:marshal hash=" + hx.Hex(sh.Hash())
 				}
-				checkSHRoundTrip(c, &sh, b)
-				return fmt.Sprintf("bytes=%s hash=%s", hx.Hex(b), hx.Hex(sh.Hash()))
+				eq := checkSHRoundTrip(c, &sh, b)
+				return fmt.Sprintf("bytes=%s hash=%s deq=%s", hx.Hex(b), hx.Hex(sh.Hash()), deqHit(c, "signedheader", eq))
 			}))
 		case "enc-sd":
-			sd := types.SignedData{Data: dataOfOp(o), Signature: o.Bytes("sig"), Signer: signerOfOp(o)}
+			sd := types.SignedData{Data: dataOfOp(o), Signature: gb(o, "sig"), Signer: signerOfOp(o)}
 			c.Emit("%s", guard(c, "enc-sd", func() string {
 				b, err := sd.MarshalBinary()
 				if err != nil {
-					return "err"
+					dataEncErr(c, "signeddata", &sd.Data, err)
+					return fmt.Sprintf("err:marshal hash=%s dac=%s", hx.Hex(sd.Data.Hash()), hx.Hex(sd.Data.DACommitment()))
 				}
 				var sd2 types.SignedData
+				eq := false
 				if err := sd2.UnmarshalBinary(b); err != nil {
 					c.Report("C12/roundtrip/signeddata/decode-error", err.Error())
 				} else {
+					eq = reflect.DeepEqual(sd, sd2)
 					exp := showData(&sd.Data) + " " + showSigner(&sd.Signer)
 					got := showData(&sd2.Data) + " " + showSigner(&sd2.Signer)
 					if sd.Signer.PubKey == nil && len(sd.Signer.Address) > 0 {
@@ -530,7 +729,7 @@ func runC12(c *hx.Ctx) {
 						}
 					}
 				}
-				return fmt.Sprintf("bytes=%s hash=%s dac=%s", hx.Hex(b), hx.Hex(sd.Data.Hash()), hx.Hex(sd.Data.DACommitment()))
+				return fmt.Sprintf("bytes=%s hash=%s dac=%s deq=%s", hx.Hex(b), hx.Hex(sd.Data.Hash()), hx.Hex(sd.Data.DACommitment()), deqHit(c, "signeddata", eq))
 			}))
 		case "dec-header":
 			b := o.Bytes("b")
@@ -632,18 +831,46 @@ func runC12(c *hx.Ctx) {
 				}
 				return "ok list=" + hx.HexList(l)
 			}))
+		case "enc-state":
+			c.Emit("%s", guard(c, "enc-state", func() string { return encState(c, o) }))
+		case "dec-state":
+			b := o.Bytes("b")
+			c.Emit("%s", guard(c, "dec-state", func() string { return decState(c, b) }))
+		case "cache-sh", "cache-data":
+			c.Emit("%s", guard(c, o.Verb, func() string { return cacheRoundTrip(c, o) }))
+		case "cache-load":
+			c.Emit("%s", guard(c, "cache-load", func() string { return cacheLoad(c, o) }))
+		case "cache-trunc":
+			c.Emit("%s", guard(c, "cache-trunc", func() string { return cacheTrunc(c, o) }))
 		default:
 			c.Emit("bad-op")
 		}
 	}
 }
 
-func checkDataRoundTrip(c *hx.Ctx, d *types.Data, b []byte) {
+// dataEncErr: Data.MarshalBinary refused d (chain id of the metadata not UTF-8). Data.Hash has no error result: it
+// must not hand out one hash for two different values.
+func dataEncErr(c *hx.Ctx, what string, d *types.Data, err error) {
+	cid := ""
+	if d.Metadata != nil {
+		cid = d.Metadata.ChainID
+	}
+	encErr(c, what, cid, err)
+	other := types.Data{Metadata: d.Metadata, Txs: append(append(types.Txs(nil), d.Txs...), types.Tx("another-transaction"))}
+	if h := d.Hash(); h != nil && bytes.Equal(h, other.Hash()) {
+		c.Report("C12/hash/data-hash-ignores-marshal-error",
+			fmt.Sprintf("Data.Hash() = %s for this value and for the same value with one more transaction: MarshalBinary fails (%v) and Hash hashes what proto.Marshal left in its buffer: %s",
+				hx.Hex(h), err, showData(d)))
+	}
+}
+
+func checkDataRoundTrip(c *hx.Ctx, d *types.Data, b []byte) (deepEqual bool) {
 	var d2 types.Data
 	if err := d2.UnmarshalBinary(b); err != nil {
 		c.Report("C12/roundtrip/data/decode-error", err.Error())
-		return
+		return false
 	}
+	deepEqual = reflect.DeepEqual(*d, d2)
 	if showData(&d2) != showData(d) || !bytes.Equal(d2.Hash(), d.Hash()) || !bytes.Equal(d2.DACommitment(), d.DACommitment()) {
 		c.Report("C12/roundtrip/data/differs", showData(d)+" -> "+showData(&d2))
 	}
@@ -660,22 +887,16 @@ func checkDataRoundTrip(c *hx.Ctx, d *types.Data, b []byte) {
 			c.Report("C12/commitment/ignores-order", showData(d))
 		}
 	}
-	// gob path (cache files): Data implements BinaryMarshaler
-	var buf bytes.Buffer
-	if err := gob.NewEncoder(&buf).Encode(map[uint64]*types.Data{1: d}); err == nil {
-		out := map[uint64]*types.Data{}
-		if err := gob.NewDecoder(&buf).Decode(&out); err != nil || out[1] == nil || showData(out[1]) != showData(d) {
-			c.Report("C12/roundtrip/data/gob-differs", showData(d))
-		}
-	}
+	return deepEqual
 }
 
-func checkSHRoundTrip(c *hx.Ctx, sh *types.SignedHeader, b []byte) {
+func checkSHRoundTrip(c *hx.Ctx, sh *types.SignedHeader, b []byte) (deepEqual bool) {
 	var sh2 types.SignedHeader
 	if err := sh2.UnmarshalBinary(b); err != nil {
 		c.Report("C12/roundtrip/signedheader/decode-error", err.Error())
-		return
+		return false
 	}
+	deepEqual = reflect.DeepEqual(*sh, sh2)
 	exp := showHeader(&sh.Header) + " " + showSigner(&sh.Signer)
 	got := showHeader(&sh2.Header) + " " + showSigner(&sh2.Signer)
 	if sh.Signer.PubKey == nil && len(sh.Signer.Address) > 0 {
@@ -700,14 +921,7 @@ func checkSHRoundTrip(c *hx.Ctx, sh *types.SignedHeader, b []byte) {
 			}
 		}
 	}
-	// gob path
-	var buf bytes.Buffer
-	if err := gob.NewEncoder(&buf).Encode(map[uint64]*types.SignedHeader{1: sh}); err == nil {
-		out := map[uint64]*types.SignedHeader{}
-		if err := gob.NewDecoder(&buf).Decode(&out); err != nil || out[1] == nil || showHeader(&out[1].Header) != showHeader(&sh.Header) {
-			c.Report("C12/roundtrip/signedheader/gob-differs", exp)
-		}
-	}
+	return deepEqual
 }
 
 var _ = block.VerifEmptyDataHash
